@@ -54,3 +54,12 @@ Print Assumptions C19_prune_only_removes_members.
 Theorem C19_prune_idempotent : forall r d, prune r (prune r d) = prune r d.
 Proof. exact prune_idem. Qed.
 Print Assumptions C19_prune_idempotent.
+
+(* non-vacuity: a nested instance on which pruning removes an inner and an outer member, keeps the described ones, and a
+   second pruning changes nothing *)
+Definition c19_res : res := mkRes [] 0 [] [(1, 10, [None]); (2, 20, [None]); (2, 21, [Some (VBool false)])] [].
+Definition c19_data : goval := VObj 1 [(10, VObj 2 [(20, VBool true); (22, VBool false)]); (11, VNil)].
+Example C19_nested_instance :
+  prune c19_res c19_data = VObj 1 [(10, VObj 2 [(20, VBool true)])] /\
+  prune c19_res (prune c19_res c19_data) = prune c19_res c19_data.
+Proof. split; vm_compute; reflexivity. Qed.
